@@ -442,6 +442,8 @@ def checkChat (o : Orc) (r : Report) (j : Nat) (c : OClient) (g : String) (m : M
         else (o, none)
       else (o, none)
 
+def tokBrief (x : OTok) : String := s!"{x.id}/{x.exp}/{x.nbf}"
+
 def tokPermsSubset (t : OTok) (perms : List String) : Bool := (permList t.perms).all fun p => perms.contains (unesc p)
 
 /-- C11: tokens created/edited/listed by member `c` of group `g` -/
@@ -615,6 +617,15 @@ def oracleMsg (o : Orc) (r : Report) (j : Nat) (m : Msg) : Orc × Option String 
               | some t => if m.type = "groupaction" then checkTokens oldToks t j c g m r else
                   some s!"C11: {m.type}/{m.kind} by client {j} changed the token store"
               | none => none
+            -- C16: a token request that was answered with an error has not taken effect
+            let refusedV := match r.toks with
+              | some t =>
+                if m.type = "groupaction" ∧ (m.kind = "edittoken" ∨ m.kind = "maketoken") ∧ t != oldToks ∧
+                    (r.w j).any (fun x => x.type = "usermessage" ∧ x.kind = "token" ∧ x.has "err") then
+                  some s!"C16: {m.kind} by client {j} was answered with an error, yet the server's live token table changed from {oldToks.map tokBrief} to {t.map tokBrief}"
+                else none
+              | none => none
+            let tokV := refusedV.orElse fun _ => tokV
             let listV := if m.type = "groupaction" ∧ m.kind = "listtokens" then checkTokenList j g r else none
             let reachV :=
               if m.type = "useraction" ∧ m.kind ∈ ["op", "unop", "present", "unpresent", "shutup", "unshutup"] then
